@@ -2,7 +2,7 @@
 
 A real directory tree with canary files outside every root (parent directory, prefix-sharing sibling,
 absolute path, a sibling of the PICO-8 carts root sharing its prefix); every path string of <= N atoms
-over {x, lib, ., .., /, sub/, ../, foobar/, ?, ;, <abs>, carts2/, ~, ~/} x load-path settings x cart locations,
+over {x, lib, ., .., /, sub/, ../, foobar/, ?, ;, <abs>, carts2/, ~, ~/, carts/} x load-path settings x cart locations,
 driven through the public entries (`p8tool build --lua main.lua`, `file.from_file(cart.p8)`) with
 builtins.open / io.open wrapped in-process.  Every opened path inside the sandbox must lie under a
 permitted root, else the load must have failed before opening.
@@ -17,10 +17,10 @@ import tempfile
 from lib.core import ShardResult
 
 LEVEL = 'exploration'
-RULE = ('every concatenation of <= N atoms (quick 3, thorough 5) over 14 atoms as require() string x 5 load-path '
+RULE = ('every concatenation of <= N atoms (quick 3, thorough 5) over 15 atoms as require() string x 5 load-path '
         'settings (default, ?/init.lua, lib/?.lua, absolute dir, PICO8_LUA_PATH environment variable) and as #include '
-        'path x 3 cart locations (plain directory, below the PICO-8 carts root, in a sibling "carts2" sharing the '
-        'root\'s name prefix); non-trivial = the string contains "..", "/" at the start, an absolute path or a '
+        'path x 4 cart locations (plain directory, below the PICO-8 carts root, in and below a sibling "carts2" sharing '
+        'the root\'s name prefix); non-trivial = the string contains "..", "/" at the start, an absolute path or a '
         'prefix-sharing sibling name; distinct = distinct (string, configuration)')
 ASSUMPTIONS = ['only opens of paths inside the sandbox tree are judged (the interpreter, picotool\'s bundled label image and '
                'staging files live elsewhere); os.path.isfile probes are recorded but not judged (the statement speaks of '
@@ -29,7 +29,8 @@ ASSUMPTIONS = ['only opens of paths inside the sandbox tree are judged (the inte
                'entry; for #include: the carts root if the cart is below it, else the cart\'s directory']
 BOUNDS = {'quick': {'atoms': 3}, 'thorough': {'atoms': 5}}
 
-ATOMS = ['x', 'lib', '.', '..', '/', 'sub/', '../', 'foobar/', '?', ';', '<abs>', 'carts2/', '~', '~/']
+ATOMS = ['x', 'lib', '.', '..', '/', 'sub/', '../', 'foobar/', '?', ';', '<abs>', 'carts2/', '~', '~/', 'carts/']
+INCLUDE_ONLY = ('carts2/', 'carts/')
 
 
 class Sandbox(object):
@@ -239,7 +240,7 @@ def check_require_nested(sb, p, lp, res):
     res.outcome(('require-nested',))
 
 
-CART_LOCS = ['plain', 'cartsroot', 'carts2']
+CART_LOCS = ['plain', 'cartsroot', 'carts2', 'carts2top']
 
 
 def check_include(sb, p, loc, res):
@@ -251,6 +252,9 @@ def check_include(sb, p, loc, res):
     elif loc == 'cartsroot':
         d = os.path.join(sb.carts, 'game')
         root = sb.carts
+    elif loc == 'carts2top':
+        d = sb.carts2   # directly in the sibling whose name starts with the carts folder's name
+        root = d
     else:
         d = os.path.join(sb.carts2, 'game')
         root = d        # carts2 is not a PICO-8 carts folder: the cart's own directory is the root
@@ -258,7 +262,7 @@ def check_include(sb, p, loc, res):
     open(cart, 'wb').write(b'pico-8 cartridge // http://www.pico-8.com\nversion 33\n__lua__\n#include ' + p.encode() +
                            b'.lua\n')
     case = {'kind': 'include', 'p': p.replace(sb.root, '<SB>'), 'loc': loc}
-    if any(t in p for t in ('..', 'foobar', 'carts2', sb.abs)) or p.startswith('/'):
+    if any(t in p for t in ('..', 'foobar', 'carts', sb.abs)) or p.startswith('/'):
         res.nontriv(('include', p, loc))
     home_old = os.environ.get('HOME')
     os.environ['HOME'] = sb.home
@@ -310,7 +314,7 @@ def run_shard(item):
             if '"' in p or '\\' in p or '\n' in p:
                 continue
             # require(): the include-only atom 'carts2/' adds nothing there
-            if 'carts2/' not in combo:
+            if not any(a in combo for a in INCLUDE_ONLY):
                 for lp in LOADPATHS:
                     check_require(sb, p, lp, res)
                 if p and len(combo) <= 2:
